@@ -44,6 +44,19 @@ pub fn header_requests(ra: &RefArchive) -> Vec<String> {
     vec!["bytes=0-13".to_string(), format!("bytes=14-{}", ra.header_len - 1)]
 }
 
+/// The chunk-data requests of a log: everything that is not a read inside the header region
+/// (how the header is fetched -- in how many requests, with which bounds -- is not C07's
+/// business, only C06's byte accounting looks at it).
+pub fn chunk_data_requests(ra: &RefArchive, log: &[crate::net::LoggedRequest]) -> Vec<String> {
+    log.iter()
+        .filter(|l| match l.parsed {
+            Some((_, b)) => b >= ra.header_len as u64,
+            None => true,
+        })
+        .map(|l| l.range.clone().unwrap_or_default())
+        .collect()
+}
+
 pub fn run(ctx: &mut Ctx) {
     if gen::chance(1, 3) {
         run_cli(ctx);
@@ -65,15 +78,14 @@ fn run_cli(ctx: &mut Ctx) {
         simkit::count("hash-collision-exempt");
         return;
     }
-    let mut want = header_requests(&f.ra);
-    want.extend(expected_requests(&f.ra, &ex.fetch));
-    let got: Vec<String> = ob.http_log.iter().map(|l| l.range.clone().unwrap_or_default()).collect();
+    let want = expected_requests(&f.ra, &ex.fetch);
+    let got = chunk_data_requests(&f.ra, &ob.http_log);
     if want != got {
         let i = want.iter().zip(got.iter()).position(|(a, b)| a != b).unwrap_or(want.len().min(got.len()));
         ctx.fail("request-list-clone", format!("request #{} is {:?}, expected {:?} ({} requests, expected {}); {}", i, got.get(i), want.get(i), got.len(), want.len(), f.desc));
         return;
     }
-    ctx.verdict.nontrivial = want.len() >= 4;
+    ctx.verdict.nontrivial = want.len() >= 2;
     ctx.verdict.shape = want.len() as u64 ^ (1 << 40);
 }
 
@@ -172,15 +184,14 @@ fn run_subset(ctx: &mut Ctx) {
             return;
         }
     }
-    let mut want = header_requests(&ra);
-    want.extend(expected_requests(&ra, &fetch));
-    let got: Vec<String> = log.iter().map(|l| l.range.clone().unwrap_or_default()).collect();
+    let want = expected_requests(&ra, &fetch);
+    let got = chunk_data_requests(&ra, &log);
     if want != got {
         let i = want.iter().zip(got.iter()).position(|(a, b)| a != b).unwrap_or(want.len().min(got.len()));
         ctx.fail("request-list", format!("request #{} is {:?}, expected {:?} ({} requests, expected {}); {}", i, got.get(i), want.get(i), got.len(), want.len(), desc));
         return;
     }
-    ctx.verdict.nontrivial = want.len() >= 4 && subset.len() < n;
+    ctx.verdict.nontrivial = want.len() >= 2 && subset.len() < n;
     // the subset pattern itself is the shape
     let mut h = n as u64;
     for i in &subset {
